@@ -296,7 +296,9 @@ impl Request {
             let value = CowSlice::Ref(Slice::from_bytes(value));
             r.consume("\r\n").ok_or_else(Response::BadRequest)?;
 
-            if let Some(key) = RequestHeader::from_bytes(key_bytes) {
+            if let Some(key) = RequestHeader::from_bytes(key_bytes)
+                .or_else(|| RequestHeader::from_bytes_ignore_case(key_bytes))
+            {
                 self.headers.append(key, value);
             } else {
                 self.headers.insert_custom(Slice::from_bytes(key_bytes), value)
